@@ -281,69 +281,39 @@ theorem skipExpr_ok_cases (r r' : Rd) (h : r.skipExpr = .ok r') :
         exact .inl ⟨s, rfl⟩
     · right; rw [hg]
 
-/-! ### loops -/
+/-! ### the per-round guard -/
 
-theorem skipLoop_of_rawLoop : ∀ (n : Nat) (r : Rd) (acc es : List Bytes) (r' : Rd),
-    rawLoop n r acc = .ok (es, r') → skipLoop n r = .ok r' := by
-  intro n
-  induction n with
-  | zero =>
-    intro r acc es r' h
-    simp only [rawLoop] at h
-    injection h with h; injection h with _ h2
-    simp [skipLoop, h2]
-  | succ n ih =>
-    intro r acc es r' h
-    unfold rawLoop at h
-    unfold skipLoop
-    cases hr : r.readExpr with
-    | error e => rw [hr] at h; cases h
-    | ok p =>
-      obtain ⟨s, r1⟩ := p
-      rw [hr] at h; simp only at h
-      rw [skipExpr_of_readExpr r s r1 hr]
-      exact ih r1 _ es r' h
+theorem readExpr_after_guard (r rg : Rd) (h : r.guard = .ok rg) : rg.readExpr = r.readExpr := by
+  unfold Rd.guard at h
+  cases h1 : r.d.ensure 1 with
+  | error e => rw [h1] at h; cases h
+  | ok d1 =>
+    rw [h1] at h; simp only at h; injection h with h; subst h
+    unfold Rd.readExpr Rd.getString Rd.getSecretString Rd.getStringIn Rd.secretMode
+    simp only [getString_after_ensure _ r.d d1 h1]
 
-theorem rawLoop_of_skipLoop_err : ∀ (n : Nat) (r : Rd) (acc : List Bytes) (e : Err),
-    skipLoop n r = .error e → rawLoop n r acc = .error e ∨ rawLoop n r acc = .error .malformed := by
-  intro n
-  induction n with
-  | zero => intro r acc e h; simp [skipLoop] at h
-  | succ n ih =>
-    intro r acc e h
-    unfold skipLoop at h
-    unfold rawLoop
-    cases hs : r.skipExpr with
-    | error e1 =>
-      rw [hs] at h; simp only at h; injection h with h; subst h
-      rcases readExpr_of_skipExpr_err r e1 hs with hr | hr
-      · rw [hr]; exact .inl rfl
-      · rw [hr]; exact .inr rfl
-    | ok r1 =>
-      rw [hs] at h; simp only at h
-      rcases skipExpr_ok_cases r r1 hs with ⟨s, hr⟩ | hr
-      · rw [hr]; exact ih r1 _ e h
-      · rw [hr]; exact .inr rfl
+theorem readExpr_of_guard_err (r : Rd) (e : Err) (h : r.guard = .error e) :
+    r.readExpr = .error e ∨ (e = .eom ∧ ∃ r', r.readExpr = .ok ([], r')) := by
+  unfold Rd.guard at h
+  cases h1 : r.d.ensure 1 with
+  | ok d1 => rw [h1] at h; cases h
+  | error e1 =>
+    rw [h1] at h; simp only at h; injection h with h; subst h
+    unfold Rd.readExpr Rd.getString Rd.getStringIn
+    rcases getString_of_ensure_err r.mode r.d e1 h1 with hg | ⟨he, d', hg⟩
+    · rw [hg]; exact .inl rfl
+    · rw [hg]; simp only
+      have : ¬ (([] : Bytes) = marker) := by decide
+      rw [if_neg this]
+      exact .inr ⟨he, _, rfl⟩
 
-theorem rawLoop_of_skipLoop_ok : ∀ (n : Nat) (r : Rd) (acc : List Bytes) (r' : Rd),
-    skipLoop n r = .ok r' → (∃ es, rawLoop n r acc = .ok (es, r')) ∨ rawLoop n r acc = .error .malformed := by
-  intro n
-  induction n with
-  | zero =>
-    intro r acc r' h
-    simp only [skipLoop] at h; injection h with h; subst h
-    exact .inl ⟨acc.reverse, rfl⟩
-  | succ n ih =>
-    intro r acc r' h
-    unfold skipLoop at h
-    unfold rawLoop
-    cases hs : r.skipExpr with
-    | error e1 => rw [hs] at h; cases h
-    | ok r1 =>
-      rw [hs] at h; simp only at h
-      rcases skipExpr_ok_cases r r1 hs with ⟨s, hr⟩ | hr
-      · rw [hr]; exact ih r1 _ r' h
-      · rw [hr]; exact .inr rfl
+theorem guard_err_class (r : Rd) (e : Err) (h : r.guard = .error e) : e = .eof ∨ e = .eom := by
+  unfold Rd.guard at h
+  cases h1 : r.d.ensure 1 with
+  | ok d1 => rw [h1] at h; cases h
+  | error e1 =>
+    rw [h1] at h; simp only at h; injection h with h; subst h
+    exact ensure_err_class r.d 1 e1 h1
 
 theorem parseAndInsert_err (ferr pok : Bytes → Bool) (s : Bytes) (e : Err)
     (h : parseAndInsert ferr pok s = .error e) : e = .malformed := by
@@ -363,6 +333,87 @@ theorem parseAndInsert_err (ferr pok : Bytes → Bool) (s : Bytes) (e : Err)
             · injection h with h; exact h.symm
           · injection h with h; exact h.symm
 
+theorem parseAndInsert_nil (ferr pok : Bytes → Bool) : parseAndInsert ferr pok [] = .error .malformed := by
+  simp [parseAndInsert, splitEq]
+
+/-! ### loops -/
+
+theorem skipLoop_of_rawLoop : ∀ (n : Nat) (r : Rd) (acc es : List Bytes) (r' : Rd),
+    rawLoop n r acc = .ok (es, r') → skipLoop n r = .ok r' := by
+  intro n
+  induction n with
+  | zero =>
+    intro r acc es r' h
+    simp only [rawLoop] at h
+    injection h with h; injection h with _ h2
+    simp [skipLoop, h2]
+  | succ n ih =>
+    intro r acc es r' h
+    unfold rawLoop at h
+    unfold skipLoop
+    cases hgd : r.guard with
+    | error e => rw [hgd] at h; cases h
+    | ok rg =>
+      rw [hgd] at h; simp only at h ⊢
+      cases hr : rg.readExpr with
+      | error e => rw [hr] at h; cases h
+      | ok p =>
+        obtain ⟨s, r1⟩ := p
+        rw [hr] at h; simp only at h
+        rw [skipExpr_of_readExpr rg s r1 hr]
+        exact ih r1 _ es r' h
+
+theorem rawLoop_of_skipLoop_err : ∀ (n : Nat) (r : Rd) (acc : List Bytes) (e : Err),
+    skipLoop n r = .error e → rawLoop n r acc = .error e ∨ rawLoop n r acc = .error .malformed := by
+  intro n
+  induction n with
+  | zero => intro r acc e h; simp [skipLoop] at h
+  | succ n ih =>
+    intro r acc e h
+    unfold skipLoop at h
+    unfold rawLoop
+    cases hgd : r.guard with
+    | error e1 => rw [hgd] at h; simp only at h ⊢; injection h with h; subst h; exact .inl rfl
+    | ok rg =>
+      rw [hgd] at h; simp only at h ⊢
+      cases hs : rg.skipExpr with
+      | error e1 =>
+        rw [hs] at h; simp only at h; injection h with h; subst h
+        rcases readExpr_of_skipExpr_err rg e1 hs with hr | hr
+        · rw [hr]; exact .inl rfl
+        · rw [hr]; exact .inr rfl
+      | ok r1 =>
+        rw [hs] at h; simp only at h
+        rcases skipExpr_ok_cases rg r1 hs with ⟨s, hr⟩ | hr
+        · rw [hr]; exact ih r1 _ e h
+        · rw [hr]; exact .inr rfl
+
+theorem rawLoop_of_skipLoop_ok : ∀ (n : Nat) (r : Rd) (acc : List Bytes) (r' : Rd),
+    skipLoop n r = .ok r' → (∃ es, rawLoop n r acc = .ok (es, r')) ∨ rawLoop n r acc = .error .malformed := by
+  intro n
+  induction n with
+  | zero =>
+    intro r acc r' h
+    simp only [skipLoop] at h; injection h with h; subst h
+    exact .inl ⟨acc.reverse, rfl⟩
+  | succ n ih =>
+    intro r acc r' h
+    unfold skipLoop at h
+    unfold rawLoop
+    cases hgd : r.guard with
+    | error e1 => rw [hgd] at h; cases h
+    | ok rg =>
+      rw [hgd] at h; simp only at h ⊢
+      cases hs : rg.skipExpr with
+      | error e1 => rw [hs] at h; cases h
+      | ok r1 =>
+        rw [hs] at h; simp only at h
+        rcases skipExpr_ok_cases rg r1 hs with ⟨s, hr⟩ | hr
+        · rw [hr]; exact ih r1 _ r' h
+        · rw [hr]; exact .inr rfl
+
+/-- the parsing receiver has no per-round guard, but it cannot get past an exhausted message either:
+    there GetString yields "" (plaintext) or fails (encrypted), and "" does not parse -/
 theorem skipLoop_of_adLoop (ferr pok : Bytes → Bool) : ∀ (n : Nat) (r : Rd) (acc items : List Item) (r' : Rd),
     adLoop ferr pok n r acc = .ok (items, r') → skipLoop n r = .ok r' := by
   intro n
@@ -381,10 +432,22 @@ theorem skipLoop_of_adLoop (ferr pok : Bytes → Bool) : ∀ (n : Nat) (r : Rd) 
     | ok p =>
       obtain ⟨s, r1⟩ := p
       rw [hr] at h; simp only at h
-      rw [skipExpr_of_readExpr r s r1 hr]
       cases hp : parseAndInsert ferr pok s with
       | error e => rw [hp] at h; cases h
-      | ok it => rw [hp] at h; exact ih r1 _ items r' h
+      | ok it =>
+        rw [hp] at h; simp only at h
+        cases hgd : r.guard with
+        | error e1 =>
+          exfalso
+          rcases readExpr_of_guard_err r e1 hgd with hx | ⟨_, r'', hx⟩
+          · rw [hr] at hx; cases hx
+          · rw [hr] at hx; injection hx with hx; injection hx with hx _
+            subst hx; rw [parseAndInsert_nil] at hp; cases hp
+        | ok rg =>
+          simp only
+          have hrg := readExpr_after_guard r rg hgd
+          rw [skipExpr_of_readExpr rg s r1 (by rw [hrg]; exact hr)]
+          exact ih r1 _ items r' h
 
 theorem adLoop_of_skipLoop_err (ferr pok : Bytes → Bool) : ∀ (n : Nat) (r : Rd) (acc : List Item) (e : Err),
     skipLoop n r = .error e →
@@ -396,20 +459,29 @@ theorem adLoop_of_skipLoop_err (ferr pok : Bytes → Bool) : ∀ (n : Nat) (r : 
     intro r acc e h
     unfold skipLoop at h
     unfold adLoop
-    cases hs : r.skipExpr with
+    cases hgd : r.guard with
     | error e1 =>
-      rw [hs] at h; simp only at h; injection h with h; subst h
-      rcases readExpr_of_skipExpr_err r e1 hs with hr | hr
-      · rw [hr]; exact .inl rfl
-      · rw [hr]; exact .inr rfl
-    | ok r1 =>
-      rw [hs] at h; simp only at h
-      rcases skipExpr_ok_cases r r1 hs with ⟨s, hr⟩ | hr
-      · rw [hr]; simp only
-        cases hp : parseAndInsert ferr pok s with
-        | error e2 => rw [parseAndInsert_err ferr pok s e2 hp]; exact .inr rfl
-        | ok it => exact ih r1 _ e h
-      · rw [hr]; exact .inr rfl
+      rw [hgd] at h; simp only at h; injection h with h; subst h
+      rcases readExpr_of_guard_err r e1 hgd with hx | ⟨_, r'', hx⟩
+      · rw [hx]; exact .inl rfl
+      · rw [hx]; simp only; rw [parseAndInsert_nil]; exact .inr rfl
+    | ok rg =>
+      rw [hgd] at h; simp only at h
+      rw [← readExpr_after_guard r rg hgd]
+      cases hs : rg.skipExpr with
+      | error e1 =>
+        rw [hs] at h; simp only at h; injection h with h; subst h
+        rcases readExpr_of_skipExpr_err rg e1 hs with hr | hr
+        · rw [hr]; exact .inl rfl
+        · rw [hr]; exact .inr rfl
+      | ok r1 =>
+        rw [hs] at h; simp only at h
+        rcases skipExpr_ok_cases rg r1 hs with ⟨s, hr⟩ | hr
+        · rw [hr]; simp only
+          cases hp : parseAndInsert ferr pok s with
+          | error e2 => rw [parseAndInsert_err ferr pok s e2 hp]; exact .inr rfl
+          | ok it => exact ih r1 _ e h
+        · rw [hr]; exact .inr rfl
 
 /-- when every expression string can be read, the parsing receiver can only stop on a parse failure -/
 theorem adLoop_err_of_rawLoop_ok (ferr pok : Bytes → Bool) : ∀ (n : Nat) (r1 : Rd) (acc : List Item) (racc es : List Bytes) (r2 : Rd) (e2 : Err),
@@ -421,14 +493,19 @@ theorem adLoop_err_of_rawLoop_ok (ferr pok : Bytes → Bool) : ∀ (n : Nat) (r1
     intro r1 acc racc es r2 e2 h1 h2
     unfold rawLoop at h1
     unfold adLoop at h2
-    cases hx : r1.readExpr with
-    | error e3 => rw [hx] at h1; cases h1
-    | ok q =>
-      obtain ⟨s, r1'⟩ := q
-      rw [hx] at h1 h2; simp only at h1 h2
-      cases hp : parseAndInsert ferr pok s with
-      | error e4 => rw [hp] at h2; simp only at h2; injection h2 with h2; rw [← h2]; exact parseAndInsert_err ferr pok s e4 hp
-      | ok it => rw [hp] at h2; exact ih r1' _ _ es r2 e2 h1 h2
+    cases hgd : r1.guard with
+    | error e3 => rw [hgd] at h1; cases h1
+    | ok rg =>
+      rw [hgd] at h1; simp only at h1
+      rw [← readExpr_after_guard r1 rg hgd] at h2
+      cases hx : rg.readExpr with
+      | error e3 => rw [hx] at h1; cases h1
+      | ok q =>
+        obtain ⟨s, r1'⟩ := q
+        rw [hx] at h1 h2; simp only at h1 h2
+        cases hp : parseAndInsert ferr pok s with
+        | error e4 => rw [hp] at h2; simp only at h2; injection h2 with h2; rw [← h2]; exact parseAndInsert_err ferr pok s e4 hp
+        | ok it => rw [hp] at h2; exact ih r1' _ _ es r2 e2 h1 h2
 
 theorem adLoop_err_of_rawLoop_malformed (ferr pok : Bytes → Bool) : ∀ (n : Nat) (r1 : Rd) (acc : List Item) (racc : List Bytes) (e2 : Err),
     rawLoop n r1 racc = .error .malformed → adLoop ferr pok n r1 acc = .error e2 → e2 = .malformed := by
@@ -439,34 +516,23 @@ theorem adLoop_err_of_rawLoop_malformed (ferr pok : Bytes → Bool) : ∀ (n : N
     intro r1 acc racc e2 h1 h2
     unfold rawLoop at h1
     unfold adLoop at h2
-    cases hx : r1.readExpr with
+    cases hgd : r1.guard with
     | error e3 =>
-      rw [hx] at h1 h2; simp only at h1 h2
-      injection h1 with h1; injection h2 with h2; rw [← h2, h1]
-    | ok q =>
-      obtain ⟨s, r1'⟩ := q
-      rw [hx] at h1 h2; simp only at h1 h2
-      cases hp : parseAndInsert ferr pok s with
-      | error e4 => rw [hp] at h2; simp only at h2; injection h2 with h2; rw [← h2]; exact parseAndInsert_err ferr pok s e4 hp
-      | ok it => rw [hp] at h2; exact ih r1' _ _ e2 h1 h2
-
-theorem adLoop_ok_of_rawLoop_malformed (ferr pok : Bytes → Bool) : ∀ (n : Nat) (r1 : Rd) (acc : List Item) (racc : List Bytes) (its : List Item) (r2 : Rd),
-    rawLoop n r1 racc = .error .malformed → adLoop ferr pok n r1 acc = .ok (its, r2) → False := by
-  intro n
-  induction n with
-  | zero => intro r1 acc racc its r2 h1 _; simp [rawLoop] at h1
-  | succ n ih =>
-    intro r1 acc racc its r2 h1 h2
-    unfold rawLoop at h1
-    unfold adLoop at h2
-    cases hx : r1.readExpr with
-    | error e3 => rw [hx] at h2; cases h2
-    | ok q =>
-      obtain ⟨s, r1'⟩ := q
-      rw [hx] at h1 h2; simp only at h1 h2
-      cases hp : parseAndInsert ferr pok s with
-      | error e4 => rw [hp] at h2; cases h2
-      | ok it => rw [hp] at h2; exact ih r1' _ _ its r2 h1 h2
+      rw [hgd] at h1; simp only at h1; injection h1 with h1; subst h1
+      rcases guard_err_class r1 _ hgd with hc | hc <;> cases hc
+    | ok rg =>
+      rw [hgd] at h1; simp only at h1
+      rw [← readExpr_after_guard r1 rg hgd] at h2
+      cases hx : rg.readExpr with
+      | error e3 =>
+        rw [hx] at h1 h2; simp only at h1 h2
+        injection h1 with h1; injection h2 with h2; rw [← h2, h1]
+      | ok q =>
+        obtain ⟨s, r1'⟩ := q
+        rw [hx] at h1 h2; simp only at h1 h2
+        cases hp : parseAndInsert ferr pok s with
+        | error e4 => rw [hp] at h2; simp only at h2; injection h2 with h2; rw [← h2]; exact parseAndInsert_err ferr pok s e4 hp
+        | ok it => rw [hp] at h2; exact ih r1' _ _ e2 h1 h2
 
 /-! ### whole receivers -/
 
